@@ -26,6 +26,11 @@ class _NoTail(ExtractError):
     pass
 
 
+class Closure:
+    def __init__(self, names, body, env):
+        self.names, self.body, self.env = names, body, env
+
+
 class Obj(dict):
     """a schema record (DataWorld / DataArchetype / DataComponent)"""
     __getattr__ = dict.get
@@ -55,13 +60,20 @@ class Quoter:
     def split_method_chain(self, s):
         """split `a.b(c).d::<T>()` at top-level dots"""
         m = rs.mask(s)
-        parts, depth, last, i = [], 0, 0, 0
+        parts, depth, last, i, angle = [], 0, 0, 0, 0
         while i < len(m):
             ch = m[i]
-            if ch in rs.OPEN or ch == '<' and m[i - 1:i + 1] != '-<':
+            if ch in rs.OPEN:
                 depth += 1
-            elif ch in rs.CLOSE or (ch == '>' and m[i - 1] not in '-='):
+            elif ch in rs.CLOSE:
                 depth -= 1
+            elif ch == '<' and i > 0 and (m[i - 1].isalnum() or m[i - 1] in '_:'):
+                # a generic argument list (`Vec<_>`, `collect::<..>`); a comparison `a < b` is written with spaces
+                depth += 1
+                angle += 1
+            elif ch == '>' and angle > 0 and m[i - 1] not in '-=':
+                depth -= 1
+                angle -= 1
             elif ch == '.' and depth == 0 and not (m[i + 1:i + 2] == '.' or m[i - 1:i] == '.'):
                 parts.append(s[last:i])
                 last = i + 1
@@ -92,9 +104,26 @@ class Quoter:
             return 'HASH'
         if re.match(r'^Vec(::<[^>]*>)?::new\(\)$', s):
             return []
-        m = re.match(r'^(\w+)\s*\(\s*&?(\w+)\s*\)$', s)
-        if m and m.group(1) in self.fns:
-            return self.eval_fn(m.group(1), [self.lookup(m.group(2), env)])
+        if s.startswith('{') and rs.match_close(rs.mask(s), 0) == len(s) - 1:
+            return self.eval_block(0, len(s) - 1, dict(env), '<block>', s, rs.mask(s))
+        if re.match(r'^if\b', s):
+            blk = '{' + s + '}'
+            return self.eval_block(0, len(blk) - 1, dict(env), '<if>', blk, rs.mask(blk))
+        m = re.match(r'^(?:move\s+)?\|([^|]*)\|(.*)$', s, re.S)
+        if m:
+            # a closure value: its parameters, its body text and the environment it captures
+            names = [re.sub(r':.*$', '', v, flags=re.S).strip().lstrip('&').strip() for v in m.group(1).split(',') if v.strip()]
+            return Closure(names, m.group(2), env)
+        m = re.match(r'^(\w+)\s*\(', s)
+        if m and (m.group(1) in self.fns or isinstance(env.get(m.group(1)), Closure)) \
+                and rs.match_close(rs.mask(s), m.end() - 1) == len(s) - 1:
+            args = [self.eval_expr(re.sub(r'^\s*&\s*(mut\s+)?', '', a), env) for a in rs.split_top_commas(s[m.end():-1]) if a.strip()]
+            callee = env.get(m.group(1))
+            if isinstance(callee, Closure):
+                if len(args) != len(callee.names):
+                    raise ExtractError('R-quote: closure %s called with %d arguments' % (m.group(1), len(args)))
+                return self.eval_expr(callee.body, dict(callee.env, **dict(zip(callee.names, args))))
+            return self.eval_fn(m.group(1), args)
         m = re.match(r'^\(\s*0\s*\.\.\s*(.+?)\)$', s, re.S)
         if m and rs.match_close(rs.mask(s), 0) == len(s) - 1:
             return list(range(int(self.eval_expr(m.group(1), env))))
@@ -190,9 +219,10 @@ class Quoter:
         env = dict(zip(pnames, list(args) + [None] * (len(pnames) - len(args))))
         return self.eval_block(f.body_open, f.body_close, env, name)
 
-    def eval_block(self, bopen, bclose, env, fname):
-        """statements between the braces at bopen/bclose"""
-        raw, msk = self.raw, self.msk
+    def eval_block(self, bopen, bclose, env, fname, raw=None, msk=None):
+        """statements between the braces at bopen/bclose (of self.raw, or of the given text: a closure body)"""
+        if raw is None:
+            raw, msk = self.raw, self.msk
         pos = bopen + 1
         while True:
             while pos < bclose and msk[pos].isspace():
@@ -228,8 +258,8 @@ class Quoter:
                 eclose = rs.match_close(msk, eb)
                 self.log.rule('R-cfg', 'cfg!(%s) = %s in %s' % (strip_markers(raw[m.end():pclose]).strip(), val, fname))
                 if val:
-                    return self.eval_block(tb, tclose, dict(env), fname)
-                return self.eval_block(eb, eclose, dict(env), fname)
+                    return self.eval_block(tb, tclose, dict(env), fname, raw, msk)
+                return self.eval_block(eb, eclose, dict(env), fname, raw, msk)
             m = re.compile(r'quote!\s*\(').match(msk, pos)
             if m:
                 close = rs.match_close(msk, m.end() - 1)
@@ -245,8 +275,21 @@ class Quoter:
                 b = rs.find_depth0(msk, m.end(), '{', bclose)
                 cond = self.eval_cond(raw[m.end():b], env)
                 bc = rs.match_close(msk, b)
+                em = re.compile(r'\s*else\s*\{').match(msk, bc + 1)
+                if em:
+                    eb = em.end() - 1
+                    ec = rs.match_close(msk, eb)
+                    if msk[ec + 1:bclose].strip() == '':
+                        # `if C { A } else { B }` in tail position: the value of the block
+                        return self.eval_block(b, bc, dict(env), fname, raw, msk) if cond else self.eval_block(eb, ec, dict(env), fname, raw, msk)
+                    if cond:
+                        self.exec_stmts(b, bc, env, fname, raw, msk)
+                    else:
+                        self.exec_stmts(eb, ec, env, fname, raw, msk)
+                    pos = ec + 1
+                    continue
                 if cond:
-                    self.exec_stmts(b, bc, env, fname)
+                    self.exec_stmts(b, bc, env, fname, raw, msk)
                 pos = bc + 1
                 continue
             m = re.compile(r'for\s+(\w+)\s+in\s+').match(msk, pos)
@@ -256,7 +299,7 @@ class Quoter:
                 bc = rs.match_close(msk, b)
                 for x in rng:
                     env[m.group(1)] = x
-                    self.exec_stmts(b, bc, env, fname)
+                    self.exec_stmts(b, bc, env, fname, raw, msk)
                 pos = bc + 1
                 continue
             m = re.compile(r'(\w+)\s*\.\s*(sort_by_key|sort_unstable_by_key)\s*\(\s*\|\s*(\w+)\s*\|').match(msk, pos)
@@ -287,12 +330,15 @@ class Quoter:
                 v.append(self.eval_expr(raw[m.end():close], env))
                 pos = msk.index(';', close) + 1
                 continue
+            if rs.find_depth0(msk, pos, ';', bclose) < 0:
+                # a tail expression other than quote!: the value of a helper function of the generator
+                return self.eval_expr(raw[pos:bclose], env)
             raise ExtractError('R-quote: statement form not interpreted in %s: %r' % (fname, strip_markers(raw[pos:pos + 60])))
 
-    def exec_stmts(self, bopen, bclose, env, fname):
+    def exec_stmts(self, bopen, bclose, env, fname, raw=None, msk=None):
         """a block of plain statements (no tail expression): reuse eval_block's statement forms"""
         try:
-            self.eval_block(bopen, bclose, env, fname)
+            self.eval_block(bopen, bclose, env, fname, raw, msk)
         except _NoTail:
             return
         raise ExtractError('R-quote: unexpected tail expression in a statement block of %s' % fname)
@@ -302,6 +348,20 @@ class Quoter:
         m = re.match(r'^(.*?)\s*==\s*(true|false)$', t, re.S)
         if m:
             return bool(self.eval_expr(m.group(1), env)) == (m.group(2) == 'true')
+        mt = rs.mask(t)
+        depth = 0
+        for i, ch in enumerate(mt):
+            if ch in rs.OPEN:
+                depth += 1
+            elif ch in rs.CLOSE:
+                depth -= 1
+            elif depth == 0:
+                for op in ('==', '!=', '<=', '>=', '<', '>'):
+                    if mt.startswith(op, i) and mt[i - 1:i] not in ('-', '=', '<', '>') and mt[i + len(op):i + len(op) + 1] not in ('=', '<', '>'):
+                        a, b = self.eval_expr(t[:i], env), self.eval_expr(t[i + len(op):], env)
+                        if isinstance(a, int) and isinstance(b, int):
+                            return {'==': a == b, '!=': a != b, '<=': a <= b, '>=': a >= b, '<': a < b, '>': a > b}[op]
+                        raise ExtractError('R-quote: comparison of non-integers in %r' % t[:80])
         return bool(self.eval_expr(t, env))
 
     # ------------------------------------------------------------------ quote! instantiation
